@@ -285,6 +285,12 @@ func (s *Stream) Close() error {
 func (s *Stream) close() error {
 	if oldState, won := s.casToClosed(); won {
 		if s.getCallbacks() != nil {
+			if oldState == uint32(streamOpened) || oldState == uint32(streamLocalHalfClosed) {
+				// wake pending calls BEFORE waiting for the callback goroutine: an OnData that is parked in a
+				// read on this stream returns only when closeNotifyCh is closed. (Without callbacks the
+				// notification stays after clean(): a woken reader must not touch recvBuf while it is recycled.)
+				s.safeCloseNotify()
+			}
 			s.asyncGoroutineWg.Wait()
 		}
 		s.clean()
